@@ -15,6 +15,7 @@ import (
 	"sort"
 	"strings"
 	"testing"
+	"time"
 
 	sdkmath "cosmossdk.io/math"
 	abci "github.com/cometbft/cometbft/abci/types"
@@ -85,6 +86,13 @@ func c08Run(t *rapid.T, salt string, stakes []int64, ops []c08Op, nu c08Nuisance
 			os.Unsetenv(k)
 		}
 	}()
+	// Go reads TZ once per process, so a node started with another TZ is imitated by replacing the process's local zone
+	// for the duration of this execution (the test process runs one execution at a time).
+	if _, ok := nu.Env["TZ"]; ok {
+		old := time.Local
+		time.Local = time.FixedZone("LINT", 14*3600) // Pacific/Kiritimati
+		defer func() { time.Local = old }()
+	}
 	c, err := chain.New(chain.Options{Salt: salt, Stakes: stakes, InitialHeight: 544, Users: []string{"ua", "ub"}, EvmChains: c08Chains})
 	if err != nil {
 		t.Fatalf("boot: %v", err)
